@@ -134,6 +134,7 @@ func runC09(r *Run) {
 	for _, name := range []string{fnStateSet, fnStateDel} {
 		checkOverlayWriteAs(r, p.MustFn(name), "C09.route")
 	}
+	checkBeginFresh(r)
 	r.Floor("C09.", 40)
 }
 
